@@ -974,6 +974,18 @@ func c20Gen(r *verifh.Rng) []verifh.Section {
 		return c20SweepSections(r, 40, "probe")
 	}
 	var secs []verifh.Section
+	if os.Getenv("C20_NUL") != "" {
+		// reproduction of the NUL defect (not part of the default streams: the pinned scanner ends the input at a NUL rune
+		// silently; fixes/C20-scanner-nul-rune.patch repairs it): a valid program, a NUL rune, more text
+		for i := 0; i < 20; i++ {
+			g := &gen{r: r.Fork(), tiny: true}
+			chunks := append(g.program(), "\x00", g.r.PickS(" garbage", "\ntype T { A int }\n", ")", ""))
+			sec := sectionOf("nul", i, g, chunks)
+			sec.Cfg = strings.Replace(sec.Cfg, "sure=1", "sure=0", 1)
+			secs = append(secs, sec)
+		}
+		return secs
+	}
 	nprog := verifh.Scale(300, 6000)
 	for i := 0; i < nprog; i++ {
 		g := &gen{r: r.Fork()}
